@@ -65,7 +65,9 @@ SetOK(o) == LET x == o.op.x IN
    /\ CardNF(o.post.card)
 Outside(c, n) == (c[1] # N /\ n < c[1]) \/ (c[2] # N /\ n > c[2])
 \* warn: what a new validation reports; rwarn: what report() of a Validation object made before the step reports
-WarnOK(s) == s.warn = Outside(s.card, s.count) /\ s.rwarn = Outside(s.card, s.count)
+\* (both are texts: "yes", "no", or what went wrong - "raised:..", "wrong-rank", "duplicate", "twin:..", "linked:..")
+YesNo(b) == IF b THEN "yes" ELSE "no"
+WarnOK(s) == s.warn = YesNo(Outside(s.card, s.count)) /\ s.rwarn = YesNo(Outside(s.card, s.count))
 FreeEdit(o) == o.op.name \in {"add", "remove"} =>
                   /\ o.out = "ok" /\ o.post.card = o.pre.card
                   /\ o.post.count = (IF o.op.name = "add" THEN o.pre.count + 1 ELSE o.pre.count - 1)
